@@ -89,7 +89,7 @@ theorem remove_gt (r : Reg) (k : Svc) (h : cntOf r k > 1) :
     remove r k = { r with cnt := aset k (cntOf r k - 1) r.cnt } := by simp [remove, h]
 
 theorem remove_le (r : Reg) (k : Svc) (h : ¬ cntOf r k > 1) :
-    remove r k = ⟨aset k 0 r.cnt, adel k r.owner, adel k r.handler, r.underflow || (cntOf r k == 0)⟩ := by
+    remove r k = ⟨aset k 0 r.cnt, adel k r.owner, adel k r.handler, adel (lower k) r.ha, r.underflow || (cntOf r k == 0)⟩ := by
   simp [remove, h]
 
 /-- `service_remove` on a counted key: the count goes down by one; at zero the handler and the owner entry go -/
@@ -119,7 +119,7 @@ theorem remove_spec (r : Reg) (k : Svc) (hr : RegOK r) (hpos : 1 ≤ cntOf r k) 
     · simpa [e] using this
   · rw [remove_le r k h1]
     have h1' : cntOf r k = 1 := by omega
-    have hc : ∀ k', cntOf (Reg.mk (aset k 0 r.cnt) (adel k r.owner) (adel k r.handler)
+    have hc : ∀ k', cntOf (Reg.mk (aset k 0 r.cnt) (adel k r.owner) (adel k r.handler) (adel (lower k) r.ha)
         (r.underflow || (cntOf r k == 0))) k' = cntOf r k' - (if k' = k then 1 else 0) := by
       intro k'
       simp only [cntOf, aget_aset]
@@ -452,9 +452,9 @@ theorem inv_unload (cfg : Cfg) (st : MState) (ctx : String) (hi : Inv cfg st) :
     rw [(a4 k hp).1]
     exact hi.owner h' hh k hk
 
-theorem inv_define (cfg : Cfg) (st : MState) (ctx : String) (fn : Option String) (var : String) (gen : Nat)
-    (decl : List (Svc × Resp)) (hi : Inv cfg st) : Inv cfg (step cfg st (.define ctx fn var gen decl)) := by
-  simp only [step, defineStep]
+theorem inv_defineStep (cfg : Cfg) (st : MState) (ctx : String) (fn : Option String) (var : String) (gen : Nat)
+    (decl : List (Svc × Resp)) (hi : Inv cfg st) : Inv cfg (defineStep cfg st ctx fn var gen decl) := by
+  simp only [defineStep]
   by_cases hd : (cfg.delayTopLevel && fn.isNone) = true
   · -- file-level definition of the new subsystem: only scheduled
     simp only [hd, if_true]
@@ -677,7 +677,7 @@ theorem inv_startEvents (cfg : Cfg) (ctx : String) : ∀ (gs : List Nat) (st : M
 
 theorem inv_step (cfg : Cfg) (st : MState) (op : Op) (hi : Inv cfg st) : Inv cfg (step cfg st op) := by
   cases op with
-  | define ctx fn var gen decl => exact inv_define cfg st ctx fn var gen decl hi
+  | define ctx fn var gen decl => exact inv_defineStep cfg st ctx fn var gen (foldDecl cfg decl) hi
   | start ctx events =>
     simp only [step]
     by_cases h : cfg.delayTopLevel = true
@@ -757,7 +757,7 @@ theorem acquireAll_exact (cfg : Cfg) (o : OwnerName) (gen : Nat) : ∀ (decl : L
 /-- when definitions are started at once and no definition names a service twice, the count stays exact -/
 theorem eq_step (cfg : Cfg) (hd : cfg.delayTopLevel = false) (st : MState) (op : Op) (hi : Inv cfg st)
     (he : ∀ k, trackedCount st.holders k = cntOf st.reg k)
-    (hn : ∀ ctx fn var gen decl, op = .define ctx fn var gen decl → (decl.map (·.1)).Nodup) :
+    (hn : ∀ ctx fn var gen decl, op = .define ctx fn var gen decl → ((foldDecl cfg decl).map (·.1)).Nodup) :
     ∀ k, trackedCount (step cfg st op).holders k = cntOf (step cfg st op).reg k := by
   cases op with
   | start ctx events => simp only [step, hd, Bool.false_eq_true, if_false]; exact he
@@ -767,9 +767,11 @@ theorem eq_step (cfg : Cfg) (hd : cfg.delayTopLevel = false) (st : MState) (op :
   | unload ctx =>
     obtain ⟨_, _, a3, _, _⟩ := unload_spec ctx st.holders st.reg hi.regOK hi.noUnder hi.cntGe
     intro k; have := a3 k; have := he k; simp only [step]; omega
-  | define ctx fn var gen decl =>
-    have hnd := hn ctx fn var gen decl rfl
-    simp only [step, defineStep, hd, Bool.false_and, Bool.false_eq_true, if_false]
+  | define ctx fn var gen decl0 =>
+    have hnd := hn ctx fn var gen decl0 rfl
+    simp only [step]
+    generalize foldDecl cfg decl0 = decl at hnd ⊢
+    simp only [defineStep, hd, Bool.false_and, Bool.false_eq_true, if_false]
     obtain ⟨q1, q2, ⟨added, q3, q4, _⟩, _, _⟩ := acquireAll_spec cfg (ownerFor cfg ctx fn) gen decl st.reg [] hi.regOK
     have qe := acquireAll_exact cfg (ownerFor cfg ctx fn) gen decl st.reg [] hnd (by simp)
     generalize acquireAll cfg (ownerFor cfg ctx fn) gen st.reg decl [] = a at q1 q2 q3 q4 qe
@@ -940,5 +942,265 @@ theorem splitOne_data (row : String × List Ty) : ∀ (data : List Arg), (data.m
           simp only [ht', Bool.false_eq_true, if_false] at ih' ⊢
           simp only [List.filter_cons, p2, if_true]
           exact congrArg (a :: ·) ih'
+
+
+/-! ### Home Assistant's own table (`Reg.ha`, keyed by the lower-cased name) agrees with `handler` when keys are folded -/
+
+theorem toLower_idem (c : Char) : c.toLower.toLower = c.toLower := by
+  unfold Char.toLower
+  by_cases h : c.val ≥ 'A'.val ∧ c.val ≤ 'Z'.val
+  · simp only [h, and_self, dite_true]
+    have h1 := h.1
+    have h2 := h.2
+    have : ¬ ((c.val + ('a'.val - 'A'.val)) ≥ 'A'.val ∧ (c.val + ('a'.val - 'A'.val)) ≤ 'Z'.val) := by
+      intro ⟨_, hb⟩
+      simp [UInt32.le_iff_toNat_le, UInt32.toNat_add] at h1 h2 hb
+      omega
+    simp only [this, dite_false]
+  · simp only [h, dite_false]
+
+theorem lower_idem (s : String) : lower (lower s) = lower s := by
+  simp [lower, String.toList_ofList, List.map_map, Function.comp_def, toLower_idem]
+
+/-- a key that Home Assistant's lower-casing leaves alone -/
+def Low (k : Svc) : Prop := lower k = k
+/-- Home Assistant holds exactly what pyscript's key-indexed view says -/
+def HaOK (r : Reg) : Prop := r.ha = r.handler
+def LowH (h : Holder) : Prop := (∀ d ∈ h.pending, Low d.1) ∧ (∀ k ∈ h.tracked, Low k)
+def HL (st : MState) : Prop := HaOK st.reg ∧ ∀ h ∈ st.holders, LowH h
+
+theorem keyOf_low (cfg : Cfg) (hf : cfg.foldCase = true) (k : Svc) : Low (keyOf cfg k) := by
+  simp [Low, keyOf, hf, lower_idem]
+
+theorem foldDecl_low (cfg : Cfg) (hf : cfg.foldCase = true) (decl : List (Svc × Resp)) :
+    ∀ d ∈ foldDecl cfg decl, Low d.1 := by
+  intro d hd
+  simp only [foldDecl, List.mem_map] at hd
+  obtain ⟨x, _, rfl⟩ := hd
+  exact keyOf_low cfg hf x.1
+
+theorem register_ha (r : Reg) (o : OwnerName) (k : Svc) (h : Handler) (hk : Low k) (hr : HaOK r) :
+    HaOK (register r o k h).1 := by
+  simp only [HaOK, Low] at *
+  by_cases ha : accepts r o k = true
+  · simp [register, ha, hk, hr]
+  · simp [register, ha, hr]
+
+theorem remove_ha (r : Reg) (k : Svc) (hk : Low k) (hr : HaOK r) : HaOK (remove r k) := by
+  simp only [HaOK, Low] at *
+  by_cases h1 : cntOf r k > 1
+  · rw [remove_gt r k h1]; exact hr
+  · rw [remove_le r k h1]; simp [hk, hr]
+
+theorem releaseList_ha : ∀ (l : List Svc) (r : Reg), (∀ k ∈ l, Low k) → HaOK r → HaOK (releaseList r l) := by
+  intro l
+  induction l with
+  | nil => intro r _ hr; exact hr
+  | cons k ks ih =>
+    intro r hl hr
+    simp only [releaseList]
+    exact ih _ (fun x hx => hl x (by simp [hx])) (remove_ha r k (hl k (by simp)) hr)
+
+theorem acquireAll_ha (cfg : Cfg) (o : OwnerName) (gen : Nat) : ∀ (decl : List (Svc × Resp)) (r : Reg) (tr : List Svc),
+    (∀ d ∈ decl, Low d.1) → (∀ k ∈ tr, Low k) → HaOK r →
+    HaOK (acquireAll cfg o gen r decl tr).reg ∧ ∀ k ∈ (acquireAll cfg o gen r decl tr).tracked, Low k := by
+  intro decl
+  induction decl with
+  | nil => intro r tr _ ht hr; exact ⟨hr, ht⟩
+  | cons d ds ih =>
+    intro r tr hd ht hr
+    have hd1 : Low d.1 := hd d (by simp)
+    have hds : ∀ x ∈ ds, Low x.1 := fun x hx => hd x (by simp [hx])
+    unfold acquireAll
+    split
+    · exact ih r tr hds ht hr
+    · split
+      · refine ih _ _ hds ?_ (register_ha r o d.1 _ hd1 hr)
+        intro k hk
+        rcases (mem_track cfg tr d.1 k).mp hk with h | h
+        · exact ht k h
+        · rw [h]; exact hd1
+      · exact ⟨register_ha r o d.1 _ hd1 hr, ht⟩
+
+theorem startReg_ha (cfg : Cfg) (a : Acq) (h1 : HaOK a.reg) (h2 : ∀ k ∈ a.tracked, Low k) : HaOK (startReg cfg a) := by
+  unfold startReg
+  split
+  · exact h1
+  · exact releaseList_ha _ _ h2 h1
+
+theorem startHolder_low (cfg : Cfg) (h : Holder) (a : Acq) (h2 : ∀ k ∈ a.tracked, Low k) :
+    ∀ h' ∈ (startHolder cfg h a).toList, LowH h' := by
+  intro h' hm
+  unfold startHolder at hm
+  split at hm
+  · simp only [Option.toList_some, List.mem_singleton] at hm
+    subst hm
+    exact ⟨fun d hd => by simp at hd, h2⟩
+  · simp at hm
+
+theorem dropReg_ha (cfg : Cfg) (r : Reg) (h : Holder) (hl : LowH h) (hr : HaOK r) : HaOK (dropReg cfg r h) := by
+  unfold dropReg
+  split
+  · exact releaseList_ha _ _ hl.2 hr
+  · split
+    · exact releaseList_ha _ _ hl.2 hr
+    · exact hr
+
+theorem dropHolder_low (cfg : Cfg) (h : Holder) (hl : LowH h) : ∀ h' ∈ (dropHolder cfg h).toList, LowH h' := by
+  intro h' hm
+  unfold dropHolder at hm
+  split at hm
+  · simp at hm
+  · split at hm
+    · simp at hm
+    · simp only [Option.toList_some, List.mem_singleton] at hm
+      subst hm
+      exact hl
+
+theorem unbindReg_ha (cfg : Cfg) (ctx var : String) : ∀ (hs : List Holder) (r : Reg), (∀ h ∈ hs, LowH h) → HaOK r →
+    HaOK (unbindReg cfg r ctx var hs) := by
+  intro hs
+  induction hs with
+  | nil => intro r _ hr; exact hr
+  | cons h hs ih =>
+    intro r hl hr
+    unfold unbindReg
+    split
+    · exact ih _ (fun x hx => hl x (by simp [hx])) (dropReg_ha cfg r h (hl h (by simp)) hr)
+    · exact ih _ (fun x hx => hl x (by simp [hx])) hr
+
+theorem unbindHolders_low (cfg : Cfg) (ctx var : String) : ∀ (hs : List Holder), (∀ h ∈ hs, LowH h) →
+    ∀ h ∈ unbindHolders cfg ctx var hs, LowH h := by
+  intro hs
+  induction hs with
+  | nil => intro _ h hm; simp [unbindHolders] at hm
+  | cons x xs ih =>
+    intro hl h hm
+    unfold unbindHolders at hm
+    split at hm
+    · rcases List.mem_append.mp hm with hm | hm
+      · exact dropHolder_low cfg x (hl x (by simp)) h hm
+      · exact ih (fun y hy => hl y (by simp [hy])) h hm
+    · rcases List.mem_cons.mp hm with hm | hm
+      · rw [hm]; exact hl x (by simp)
+      · exact ih (fun y hy => hl y (by simp [hy])) h hm
+
+theorem unloadReg_ha (ctx : String) : ∀ (hs : List Holder) (r : Reg), (∀ h ∈ hs, LowH h) → HaOK r →
+    HaOK (unloadReg ctx r hs) := by
+  intro hs
+  induction hs with
+  | nil => intro r _ hr; exact hr
+  | cons h hs ih =>
+    intro r hl hr
+    unfold unloadReg
+    split
+    · exact ih _ (fun x hx => hl x (by simp [hx])) (releaseList_ha _ _ (hl h (by simp)).2 hr)
+    · exact ih _ (fun x hx => hl x (by simp [hx])) hr
+
+theorem eventReg_ha (cfg : Cfg) (r : Reg) (h : Holder) (hl : LowH h) (hr : HaOK r) : HaOK (eventReg cfg r h) := by
+  unfold eventReg
+  split
+  · exact hr
+  · rename_i d ds hp
+    have hd : Low d.1 := hl.1 d (by rw [hp]; simp)
+    split
+    · exact hr
+    · split
+      · exact register_ha r h.owner d.1 _ hd hr
+      · exact releaseList_ha _ _ hl.2 (register_ha r h.owner d.1 _ hd hr)
+
+theorem eventHolder_low (cfg : Cfg) (r : Reg) (h : Holder) (hl : LowH h) :
+    ∀ h' ∈ (eventHolder cfg r h).toList, LowH h' := by
+  intro h' hm
+  unfold eventHolder at hm
+  split at hm
+  · simp only [Option.toList_some, List.mem_singleton] at hm; rw [hm]; exact hl
+  · rename_i d ds hp
+    have hd : Low d.1 := hl.1 d (by rw [hp]; simp)
+    have hds : ∀ x ∈ ds, Low x.1 := fun x hx => hl.1 x (by rw [hp]; simp [hx])
+    split at hm
+    · simp only [Option.toList_some, List.mem_singleton] at hm; rw [hm]; exact ⟨hds, hl.2⟩
+    · split at hm
+      · simp only [Option.toList_some, List.mem_singleton] at hm
+        rw [hm]
+        refine ⟨hds, fun k hk => ?_⟩
+        rcases (mem_track cfg h.tracked d.1 k).mp hk with e | e
+        · exact hl.2 k e
+        · rw [e]; exact hd
+      · simp at hm
+
+theorem eventStepReg_ha (cfg : Cfg) (ctx : String) (g : Nat) : ∀ (hs : List Holder) (r : Reg), (∀ h ∈ hs, LowH h) → HaOK r →
+    HaOK (eventStepReg cfg r ctx g hs) := by
+  intro hs
+  induction hs with
+  | nil => intro r _ hr; exact hr
+  | cons h hs ih =>
+    intro r hl hr
+    unfold eventStepReg
+    split
+    · exact eventReg_ha cfg r h (hl h (by simp)) hr
+    · exact ih r (fun x hx => hl x (by simp [hx])) hr
+
+theorem eventStepHolders_low (cfg : Cfg) (r : Reg) (ctx : String) (g : Nat) : ∀ (hs : List Holder), (∀ h ∈ hs, LowH h) →
+    ∀ h ∈ eventStepHolders cfg r ctx g hs, LowH h := by
+  intro hs
+  induction hs with
+  | nil => intro _ h hm; simp [eventStepHolders] at hm
+  | cons x xs ih =>
+    intro hl h hm
+    unfold eventStepHolders at hm
+    split at hm
+    · rcases List.mem_append.mp hm with hm | hm
+      · exact eventHolder_low cfg r x (hl x (by simp)) h hm
+      · exact hl h (by simp [hm])
+    · rcases List.mem_cons.mp hm with hm | hm
+      · rw [hm]; exact hl x (by simp)
+      · exact ih (fun y hy => hl y (by simp [hy])) h hm
+
+theorem startEvents_hl (cfg : Cfg) (ctx : String) : ∀ (gs : List Nat) (st : MState), HL st → HL (startEvents cfg ctx st gs) := by
+  intro gs
+  induction gs with
+  | nil => intro st h; exact h
+  | cons g gs ih =>
+    intro st h
+    simp only [startEvents]
+    exact ih _ ⟨eventStepReg_ha cfg ctx g st.holders st.reg h.2 h.1, eventStepHolders_low cfg st.reg ctx g st.holders h.2⟩
+
+theorem defineStep_hl (cfg : Cfg) (st : MState) (ctx : String) (fn : Option String) (var : String) (gen : Nat)
+    (decl : List (Svc × Resp)) (hd : ∀ d ∈ decl, Low d.1) (h : HL st) : HL (defineStep cfg st ctx fn var gen decl) := by
+  unfold defineStep
+  split
+  · refine ⟨unbindReg_ha cfg ctx var st.holders st.reg h.2 h.1, fun x hx => ?_⟩
+    rcases List.mem_append.mp hx with hx | hx
+    · exact unbindHolders_low cfg ctx var st.holders h.2 x hx
+    · simp only [List.mem_singleton] at hx
+      rw [hx]
+      exact ⟨hd, fun k hk => by simp [newHolder] at hk⟩
+  · obtain ⟨a1, a2⟩ := acquireAll_ha cfg (ownerFor cfg ctx fn) gen decl st.reg [] hd (fun k hk => by simp at hk) h.1
+    refine ⟨unbindReg_ha cfg ctx var st.holders _ h.2 (startReg_ha cfg _ a1 a2), fun x hx => ?_⟩
+    rcases List.mem_append.mp hx with hx | hx
+    · exact unbindHolders_low cfg ctx var st.holders h.2 x hx
+    · exact startHolder_low cfg _ _ a2 x hx
+
+theorem step_hl (cfg : Cfg) (hf : cfg.foldCase = true) (st : MState) (op : Op) (h : HL st) : HL (step cfg st op) := by
+  cases op with
+  | define ctx fn var gen decl => exact defineStep_hl cfg st ctx fn var gen _ (foldDecl_low cfg hf decl) h
+  | start ctx events =>
+    simp only [step]
+    split
+    · exact startEvents_hl cfg ctx events st h
+    · exact h
+  | delete ctx var =>
+    exact ⟨unbindReg_ha cfg ctx var st.holders st.reg h.2 h.1, unbindHolders_low cfg ctx var st.holders h.2⟩
+  | unload ctx =>
+    exact ⟨unloadReg_ha ctx st.holders st.reg h.2 h.1, fun x hx => h.2 x (List.mem_filter.mp hx).1⟩
+
+theorem run_hl (cfg : Cfg) (hf : cfg.foldCase = true) : ∀ (ops : List Op) (st : MState), HL st → HL (run cfg st ops) := by
+  intro ops
+  induction ops with
+  | nil => intro st h; exact h
+  | cons op ops ih => intro st h; simp only [run]; exact ih _ (step_hl cfg hf st op h)
+
+theorem hl_init : HL {} := ⟨rfl, fun h hm => by simp at hm⟩
 
 end PsModel.C12
